@@ -31,6 +31,7 @@ fn t_strategy() -> BoxedStrategy<URecipe> {
         2 => any::<bool>().prop_map(URecipe::Exceptional),
         1 => any::<u16>().prop_map(URecipe::StagePreimage),
         5 => (0u8..4, 0u8..4, fq_strategy(), 0u8..4).prop_map(|(stage, shape, c, pick)| URecipe::Structured { stage, shape, c, pick }),
+        2 => (fq_strategy(), any::<u8>()).prop_map(|(y, p)| URecipe::FromY(y, p)),
     ]
     .boxed()
 }
@@ -52,7 +53,7 @@ fn t_g1(c: &SwuCase) -> Fq {
             let (a, b) = h2c::g1_exceptional_roots();
             if *s { a } else { b }
         }
-        URecipe::StagePreimage(_) | URecipe::Structured { .. } => super::c14::u_g1(&c.t),
+        URecipe::StagePreimage(_) | URecipe::Structured { .. } | URecipe::FromY(_, _) => super::c14::u_g1(&c.t),
     };
     if c.negate { t.neg() } else { t }
 }
@@ -67,7 +68,7 @@ fn t_g2(c: &SwuCase) -> Fq2 {
             let (a, b) = h2c::g1_exceptional_roots();
             Fq2::new(Fq::zero(), if *s { a } else { b })
         }
-        URecipe::StagePreimage(_) | URecipe::Structured { .. } => super::c14::u_g2(&c.t),
+        URecipe::StagePreimage(_) | URecipe::Structured { .. } | URecipe::FromY(_, _) => super::c14::u_g2(&c.t),
     };
     if c.negate { t.neg() } else { t }
 }
@@ -75,6 +76,11 @@ fn t_g2(c: &SwuCase) -> Fq2 {
 fn check_swu(c: &SwuCase, info: &mut Info) -> Result<(), String> {
     if let Some(cl) = super::c14::structured_class(c.group, &c.t) {
         info.class(cl);
+    }
+    if let URecipe::FromY(y, p) = &c.t {
+        if c.group == 0 {
+            info.class(if super::c14::u_from_y_g1(&y.fq(), *p).is_some() { "t-constructed-from-a-prescribed-output-ordinate" } else { "t-from-ordinate:no-such-input (value used as t)" });
+        }
     }
     if matches!(c.t, URecipe::StagePreimage(_)) {
         info.class("t-sswu-preimage-of-stage-special-point");
